@@ -289,20 +289,48 @@ def step(obj, m, ev, seed):
     return m
 
 
-def run_event(ctx, s, m, ev, seed, case):
-    """restore -> step under guard.  Returns (snapshot, model) or None."""
-    obj = restore(s)
+def perform(obj, ev, m, seed):
+    """apply one event to a live object without judging it (used to bring a fresh object through a history)"""
+    op = ev[0]
+    if op in ("rescale", "unscale"):
+        getattr(obj, op)(inplace=ev[1])
+    elif op in ("transform", "untransform"):
+        getattr(obj, op)(arg_matrix(ev[1], m, seed).copy(), copy=ev[2])
+    else:
+        c = obj.copy() if ev[1] == "copy" else _copy.copy(obj)
+        if ev[2] == "unscale":
+            c.unscale(inplace=True)
+        elif ev[2] == "rescale":
+            c.rescale(inplace=True)
+        else:
+            c.untransform(c.mat, copy=False)
+            c.transform(c.mat, copy=False)
+
+
+def run_event(ctx, s, m, ev, seed, case, live=None, hist=()):
+    """Judge one event on a LIVE object: a fresh object is taken through the whole history by the real methods (not
+    rebuilt from a snapshot of its public arrays), so that anything the object keeps besides mat / location / scale
+    (caches, shared vectors) is in the state a user's object would be in.  Returns (snapshot, model) or None."""
     box = {}
     ctx.evaluations += 1
     ctx.transitions += 1
     ctx.count(f"S:op:{ev[0]}")
 
     def do():
+        if live is None:
+            obj = restore(s)
+        else:
+            obj = live()
+            for e in hist:
+                perform(obj, e, m, seed)
+            require(unchanged(obj, s), f"{C}:history-replay-differs",
+                    "replaying the history on a fresh object does not reproduce the recorded state")
+        box["o"] = obj
         box["m"] = step(obj, m, ev, seed)
     if not ctx.guard(do, case=case, sig_prefix=opsig(ev) + ":"):
         return None
     ctx.traces += 1
-    ns = snap(obj)
+    ns = snap(box["o"])
     if not (same(ns[0], s[0]) and same(ns[1], s[1]) and same(ns[2], s[2])):
         ctx.flag(f"S:changes:{ev[0]}")
         ctx.nontriv(digest(("S", s, ev)))
@@ -332,6 +360,11 @@ def bfs(ctx, mat, vid, seed, depth):
     if x is None:
         return
     obj, m = x
+    t_ = R.nd_shape(mat)[-1]
+    loc_, scale_ = variants(seed, t_)[vid]
+
+    def live():
+        return make(mat, loc_, scale_)[0]
     s0 = snap(obj)
     seen = {digest(s0)}
     ctx.state(digest(("S", s0)))
@@ -349,7 +382,7 @@ def bfs(ctx, mat, vid, seed, depth):
             continue
         for ev in EVENTS:
             case = dict(base, history=list(hist) + [ev])
-            out = run_event(ctx, s, mm, ev, seed, case)
+            out = run_event(ctx, s, mm, ev, seed, case, live=live, hist=hist)
             if out is None:
                 continue
             ns, nm = out
@@ -442,11 +475,14 @@ def replay(case, ctx):
     if x is None:
         return
     obj, m = x
+    t_ = R.nd_shape(case["mat"])[-1]
+    loc_, scale_ = variants(seed, t_)[case["variant"]]
     s = snap(obj)
     hist = []
     for ev in case["history"]:
+        out = run_event(ctx, s, m, ev, seed, dict(case, history=list(hist) + [ev]),
+                        live=lambda: make(case["mat"], loc_, scale_)[0], hist=tuple(hist))
         hist.append(ev)
-        out = run_event(ctx, s, m, ev, seed, dict(case, history=list(hist)))
         if out is None:
             return
         s, m = out
